@@ -145,9 +145,82 @@ pub fn main(args: &Args) -> i32 {
         for r in reports { rep.absorb(r); }
     }
     routinator::verif::set_switch("sort-manifest-entries", false);
+    // the stored-data path: the same worlds once more after an aborted update of ca2's publication point
+    {
+        let mut local = Report::new("refresh");
+        let bed = TestBed::new();
+        let mut n = 0usize;
+        for idx in order.iter() {
+            let b = &behaviours[*idx];
+            let t = times_of(b);
+            let short_mft = ["mftnext", "mftee"].iter().any(|k| t[&(k.to_string(), 2, 0)] != 30);
+            if !short_mft || !b["faults"].as_array().unwrap().is_empty() { continue }
+            for shorter in [true, false] { fallback_one(&mut local, &bed, &factory, b, *idx, shorter); n += 1; }
+            if n >= args.opt_usize("fallback_limit", if args.thorough() { 400 } else { 60 }) { break }
+        }
+        local.note(PID, "fallback_histories", json!(n));
+        rep.absorb(local);
+    }
     rep.note(PID, "worlds_exported", json!(total));
     rep.note(PID, "worlds_replayed", json!(order.len()));
     rep.write(args)
+}
+
+/// The stored-data path.  Run 1 validates and stores the world.  Then ca2 issues a newer manifest (number + 1) that
+/// lasts shorter (`shorter`) or longer than the stored one and lists a file that cannot be retrieved: the update is
+/// abandoned and the stored point is used.  The payload comes from the stored manifest, so the deadline is bound by
+/// the stored manifest's times, whatever the abandoned one said.
+fn fallback_one(rep: &mut Report, bed: &TestBed, factory: &Arc<Factory>, b: &Value, idx: usize, shorter: bool) {
+    let t = times_of(b);
+    let world = build_world(b, &t);
+    bed.wipe_cache();
+    bed.publish(&world.build(factory));
+    let cfg = bed.config();
+    let ctx = || json!({"world": brief(b), "history": format!("stored, then an abandoned update of ca2 whose manifest lasts {}", if shorter { "shorter" } else { "longer" }),
+                        "behaviour": b});
+    let first = match run_once(&cfg, true, &LocalExceptions::empty()) { Ok(r) => r.payload, Err(e) => { rep.divergence(PID, format!("world {idx}: first run failed {e:?}")); return } };
+    let mut w2 = build_world(b, &t);
+    {
+        let ca2 = &mut w2.cas[1];
+        let t1 = t[&("mftnext".to_string(), 2, 0)].min(t[&("mftee".to_string(), 2, 0)]);
+        let t2 = if shorter { (t1 - 2).max(1) } else { 30 };
+        ca2.mft.number = 2;
+        ca2.mft.this_update = -1;
+        ca2.mft.next_update = t2;
+        ca2.mft_validity = (-2, t2);
+        ca2.mft_serial += 1;
+        ca2.objects[1].fault = Fault::Missing;
+    }
+    bed.publish_files(&w2.build(factory));
+    let second = match run_once(&cfg, true, &LocalExceptions::empty()) { Ok(r) => r.payload, Err(e) => { rep.divergence(PID, format!("world {idx}: second run failed {e:?}")); return } };
+    rep.eval(PID);
+    if second.origins != first.origins {
+        rep.divergence(PID, format!("world {idx}: the abandoned update changed the payload ({} -> {} origins): the stored point was not used", first.origins.len(), second.origins.len()));
+        return
+    }
+    let base = factory.now.timestamp();
+    let mut relevant: Vec<(i64, (String, u64, u64))> = Vec::new();
+    for (key, (_, prefix, asn)) in objects() {
+        if !second.origins.contains(&vrp(prefix, asn)) { continue }
+        for el in chain(key.0) { relevant.push((t[&el], el)); }
+        let el = ("obj".to_string(), key.0, key.1);
+        relevant.push((t[&el], el));
+    }
+    relevant.sort();
+    let bound = match relevant.first() { Some(x) => x.0, None => return };
+    rep.nontrivial(PID, format!("fallback|{}|{}", brief(b), shorter));
+    rep.trace(PID);
+    let observed = json!({"refresh_hours_from_now": second.refresh.map(|r| (r - base) as f64 / 3600.0), "bound_hours": bound,
+                          "first_run_refresh_hours": first.refresh.map(|r| (r - base) as f64 / 3600.0)});
+    match second.refresh {
+        Some(r) if r > base + bound * 3600 => {
+            rep.violation(PID, &format!("refresh-later-than/stored-manifest/{}", if shorter { "abandoned-shorter" } else { "abandoned-longer" }),
+                format!("payload comes from the stored publication point; the refresh deadline is {:.2} h from now although {:?} expires after {} h",
+                        (r - base) as f64 / 3600.0, relevant.first().map(|x| &x.1), bound), ctx(), observed);
+        }
+        None => rep.violation(PID, "no-refresh-time", "payload is served without any refresh deadline".to_string(), ctx(), observed),
+        _ => {}
+    }
 }
 
 fn one(rep: &mut Report, bed: &TestBed, factory: &Arc<Factory>, b: &Value, idx: usize, sorted: bool) -> bool {
